@@ -14,6 +14,7 @@ JOBS = [
     ("py2v_reject.py", "Gen/RejectSites.v"),
     ("consts2v.py", "Gen/ConstsGen.v"),
     ("py2v_iter.py", "Gen/IterBook.v"),
+    ("py2v_diag.py", "Gen/DiagGen.v"),
 ]
 if __name__ == "__main__":
     repo, coq = sys.argv[1], sys.argv[2]
